@@ -245,7 +245,10 @@ CONFIG.required_theorems = ["parse_iff", "signed_range_exact", "sections_in_orde
                              "verify_ok_iff", "no_constraints_never_trusted", "verify_reads_only_signed_range", "wrong_constraint_refused",
                              "by_time_spec", "find_spec", "nearest_spec", "latest_spec", "cert_by_id_spec"]
 CONFIG.translators = [tables.gen_templates, tables.gen_crc]
-CONFIG.engines = [Engine("c18", ["exec_c18.c"], "drv_c18", gen, trivial=trivial, env={"VERIF_PKI_DIR": os.path.join(core.VERIF, ".build", "pki")})]
+CONFIG.engines = [Engine("c18", ["exec_c18.c"], "drv_c18", gen, trivial=trivial, env={"VERIF_PKI_DIR": os.path.join(core.VERIF, ".build", "pki"),
+                                                                                   "LSAN_OPTIONS": "suppressions=%s:print_suppressions=0" % os.path.join(core.VERIF, "harness", "lsan.supp"),
+                                                                                   # the suppression matches on frames inside libcrypto, which the fast unwinder cannot walk
+                                                                                   "ASAN_OPTIONS": "detect_leaks=1:abort_on_error=0:exitcode=99:allocator_may_return_null=1:fast_unwind_on_malloc=0"})]
 CONFIG.rule = ("op lines from one PRNG (VERIF_SEED); files are built record by record and signed with a throw-away CA made by the openssl command line "
                "(.build/pki: two roots, one signer under each). Trust: one file x anchors {its root, another root, none} x 18 constraint sets (exact; prefix, "
                "longer, other case, other value; absent attribute; one of several wrong; empty; none) x where configured (file, context, both with either "
